@@ -1,5 +1,6 @@
 mod common;
 mod c12;
+mod c13;
 mod c15;
 mod c20;
 
@@ -50,6 +51,7 @@ fn main() {
     std::panic::set_hook(Box::new(|_| {}));
     let rep = match prop.as_str() {
         "c12" => c12::run(&opts),
+        "c13" => c13::run(&opts),
         "c15" => c15::run(&opts),
         "c20" => c20::run(&opts),
         other => {
